@@ -42,7 +42,9 @@ SAFE_ATTR_CALLS = {
 }
 SAFE_METHODS = {
     str: {'join', 'replace', 'startswith', 'endswith', 'lower', 'upper', 'strip', 'lstrip', 'rstrip', 'split', 'format', 'isdigit',
-          'isdecimal', 'isalpha', 'isalnum', 'find', 'index', 'count', 'title', 'isupper', 'islower', 'splitlines', 'encode'},
+          'isdecimal', 'isalpha', 'isalnum', 'find', 'index', 'count', 'title', 'isupper', 'islower', 'splitlines', 'encode',
+          'casefold', 'rfind', 'rsplit', 'partition', 'rpartition', 'isspace', 'isnumeric', 'zfill', 'capitalize', 'swapcase',
+          'removeprefix', 'removesuffix', 'expandtabs', 'center', 'ljust', 'rjust'},
     list: {'append', 'extend', 'index', 'count', 'copy'},
     tuple: {'index', 'count'},
     dict: {'get', 'keys', 'values', 'items'},
